@@ -2,8 +2,8 @@ SPECIFICATION Spec
 CONSTANTS
   Owner = {"A", "B"}
   Prio = {5, 7, 10}
-  PrioOf <- CorePrioOf
-  Leaf <- ChoiceLeaf
+  PrioOf <- FaultPrioOf
+  Leaf <- ValidLeaf
   MaxUpd = 2
   MaxIntents = 1
   TxnId = {"t1"}
@@ -11,10 +11,10 @@ CONSTANTS
   FailKinds = {"none"}
   TmoKinds = {"short"}
   Disabled = {}
-  UseBad = FALSE
+  UseBad = TRUE
   WithLifecycle = FALSE
-  InitDevice <- ChoiceInit
+  InitDevice <- ValidInit
 VIEW view
-INVARIANTS TypeOK Converged StoreShape OneCase SlotSane
+INVARIANTS DeviceValid TypeOK Converged StoreShape OneCase SlotSane
 PROPERTIES ApplyAdmissible NoEffectSteps RollbackRestores
 CHECK_DEADLOCK FALSE
